@@ -288,7 +288,7 @@ func (d *driver) runShard(tmp string, shard, variant int, godebug string) {
 	journal := filepath.Join(tmp, tag+".journal")
 	seed := d.shardSeed(shard, 0) // same case stream for every CPU variant
 	args := []string{"-prop", d.prop, "-tier", d.tier, "-seed", fmt.Sprint(seed), "-shard", fmt.Sprint(shard),
-		"-checks", fmt.Sprint(d.plan.Checks), "-out", out, "-journal", journal,
+		"-checks", fmt.Sprint(d.plan.Checks), "-shards", fmt.Sprint(d.plan.Shards), "-out", out, "-journal", journal,
 		"-findings", filepath.Join(root, "known_findings.json"), "-case-timeout", d.plan.CaseTO.String()}
 	if d.survey {
 		args = append(args, "-survey")
